@@ -1,9 +1,7 @@
 package main
 
 import (
-	"go/ast"
-	"go/constant"
-	"strings"
+	"fmt"
 
 	"golang.org/x/tools/go/ssa"
 )
@@ -11,246 +9,354 @@ import (
 func init() {
 	register(&propDef{
 		id: "C11", run: runC11, minOblig: 8,
-		explanation: "Decides the wrapper discipline of curve25519 over crypto/ecdh. x25519 returns a non-nil slice only after NewPublicKey(point), NewPrivateKey(scalar) and priv.ECDH(pub) each returned a nil error (three checked calls on the success path, the point feeding the public key and the scalar the private key), every error return carries a nil slice, and the result is dst[:] after copy(dst[:], out) with out the ECDH result; X25519 and ScalarMult route through x25519 with (dst, scalar, point) in that order; on x25519's error edge ScalarMult stores zero to every element of the dst PARAMETER (a range loop over dst or clear of a slice of dst — not of the nil result); ScalarBaseMult derives the public key of the scalar on the same curve object and copies its bytes into dst; the exported base point is 9 followed by 31 zero bytes. NOT decided: RFC 7748 arithmetic, the low-order-point rejection and the clamping — delegated to crypto/ecdh (trusted base).",
-		assumptions: []string{"crypto/ecdh X25519 implements RFC 7748 and rejects all-zero shared secrets"},
+		explanation: "Decides the wrapper discipline of curve25519 over crypto/ecdh by symbolic interpretation of the package (c11_sym.go): the package initializer and then each exported entry point are interpreted on symbolic byte content, helpers and closures of the package are interpreted in place (no function, local, parameter name or code shape below the exported API is assumed), and both outcomes of every ECDH call are explored. X25519, for scalar/point lengths in {0(nil),31,32,33}^2: the ECDH is computed between the private key made of exactly the caller's scalar bytes and the public key made of exactly the caller's point bytes, on the X25519 curve; a nil error is returned iff both lengths are 32 and ECDH succeeded; every error return carries a nil slice; the success value is a 32-byte slice holding the ECDH output, not aliasing the inputs; scalar, point and the exported Basepoint are left unmodified. ScalarMult, for every aliasing layout of dst/scalar/point (distinct, dst==scalar, dst==point, scalar==point, all equal): the keys are made from the bytes the caller passed (dst is not written before the inputs are consumed), dst holds the ECDH output at exit when ECDH succeeded and 32 zero bytes when it failed, non-aliased inputs are intact. ScalarBaseMult (distinct, dst==scalar): dst holds the public-key bytes of the private key made from the scalar (or the ECDH of that key with the base point) at every exit. After package initialization the exported Basepoint is a 32-byte slice holding 9 followed by 31 zero bytes. No path of an entry point panics under the model; a construct outside the model is reported as undecided. NOT decided: RFC 7748 arithmetic, the low-order-point rejection and the clamping — delegated to crypto/ecdh (trusted base).",
+		assumptions: []string{
+			"crypto/ecdh X25519 implements RFC 7748 and rejects all-zero shared secrets",
+			"crypto/ecdh X25519 NewPrivateKey/NewPublicKey fail exactly for inputs that are not 32 bytes long and copy their input; Bytes returns the key's 32 input bytes; PrivateKey.PublicKey().Bytes() equals ECDH with the base point (9), which never fails",
+		},
 	})
-	tech("C11", "must-cross CFG rules on checked calls, argument-provenance table, failure-edge zeroing rule with destination provenance")
+	tech("C11", "symbolic interpretation of the package SSA (byte content, aliasing layouts, both ECDH outcomes, interprocedural) compared with the specification at every exit")
+}
+
+// c11Ob accumulates one obligation over all scenarios and paths.
+type c11Ob struct {
+	rule, construct, okDetail string
+	at                        poser
+	bad, und                  string
+	badAt                     poser
+	n                         int
+}
+
+func (o *c11Ob) seen() { o.n++ }
+func (o *c11Ob) violate(at poser, format string, a ...any) {
+	if o.bad == "" {
+		o.bad = fmt.Sprintf(format, a...)
+		if at != nil {
+			o.badAt = at
+		}
+	}
+}
+func (o *c11Ob) expect(cond bool, at poser, format string, a ...any) {
+	o.n++
+	if !cond {
+		o.violate(at, format, a...)
+	}
+}
+
+func (c *Ctx) c11Emit(obs ...*c11Ob) {
+	for _, o := range obs {
+		at := o.at
+		if o.badAt != nil {
+			at = o.badAt
+		}
+		switch {
+		case o.bad != "":
+			c.fail(o.rule, o.construct, at, o.bad)
+		case o.und != "":
+			c.undecided(o.rule, o.construct, at, o.und)
+		case o.n == 0:
+			c.undecided(o.rule, o.construct, at, "no path of the entry point reached a point where this could be evaluated")
+		default:
+			c.ok(o.rule, o.construct, at, fmt.Sprintf("%s (%d path/scenario checks)", o.okDetail, o.n))
+		}
+	}
+}
+
+func c11At(in ssa.Instruction) poser {
+	if in == nil {
+		return nil
+	}
+	return in
+}
+
+// c11Paths records how the explored paths of one scenario end; it returns the
+// paths that returned normally.
+func c11Paths(ob *c11Ob, scen string, outs []*c11Outcome) []*c11Outcome {
+	var ret []*c11Outcome
+	for _, o := range outs {
+		ob.seen()
+		switch o.end {
+		case "return":
+			ret = append(ret, o)
+		case "panic":
+			ob.violate(c11At(o.run.whyAt), "%s%s: panics (%s)", scen, c11EcdhNote(o), o.run.why)
+		default:
+			if ob.und == "" {
+				ob.und = fmt.Sprintf("%s: interpretation left the model: %s", scen, o.run.why)
+				if o.run.whyAt != nil && ob.badAt == nil {
+					ob.badAt = o.run.whyAt
+				}
+			}
+		}
+	}
+	if len(outs) >= 64 {
+		ob.und = scen + ": path bound exceeded"
+	}
+	return ret
+}
+
+func c11EcdhNote(o *c11Outcome) string {
+	n, f := 0, false
+	for _, e := range o.run.events {
+		if e.kind == "ecdh" {
+			n++
+			f = f || e.failed
+		}
+	}
+	switch {
+	case n == 0:
+		return ""
+	case f:
+		return ", ECDH failing (all-zero secret)"
+	}
+	return ", ECDH succeeding"
+}
+
+// c11Routing checks that every ECDH of the path is computed between the
+// private key of the caller's scalar bytes and the public key of the caller's
+// point bytes (content as at entry), on the X25519 curve.
+func c11Routing(ob *c11Ob, scen string, o *c11Outcome, wantS, wantP string) {
+	for _, e := range o.run.events {
+		if e.kind != "ecdh" {
+			continue
+		}
+		ob.expect(e.a == "priv("+wantS+")" && e.b == "pub("+wantP+")", c11At(e.at),
+			"%s: ECDH is computed between %s and %s instead of priv(%s) and pub(%s) — the wrong bytes reach crypto/ecdh (arguments swapped, or dst written before the inputs were consumed)", scen, e.a, e.b, wantS, wantP)
+	}
 }
 
 func runC11(c *Ctx) {
-	f := c.fn("curve25519", "x25519")
-	if f != nil {
-		dst, scalar, point := f.Params[0], f.Params[1], f.Params[2]
-		acc := valueReturns(f, 0)
-		var pub, priv, ecdh []ssa.CallInstruction
-		for _, ci := range calls(f, func(n string) bool { return true }) {
-			cc := ci.Common()
-			if !cc.IsInvoke() {
-				n := short(calleeName(cc))
-				if strings.HasSuffix(n, "ecdh.PrivateKey).ECDH") {
-					ecdh = append(ecdh, ci)
+	sp := c.ssaPkg("curve25519")
+	if sp == nil {
+		c.fail("anchor", "curve25519", nil, "package not found in the current tree; the rule cannot be evaluated")
+		return
+	}
+	nilV := c11Val{k: c11Nil}
+	bpGlobal := sp.Var("Basepoint")
+	basepointIntact := func(r *c11Run) (string, bool) {
+		if bpGlobal == nil {
+			return "no exported Basepoint variable", false
+		}
+		o := r.globals[bpGlobal]
+		if o == nil || len(o.cells) != 1 {
+			return "Basepoint is never initialized", false
+		}
+		v := o.cells[0]
+		if v.k != c11Slice {
+			return "Basepoint is " + v.String(), false
+		}
+		fp := c11Fp(v.bytes())
+		return fp, fp == "base"
+	}
+
+	// ---- base point -------------------------------------------------------
+	{
+		ob := &c11Ob{rule: "C11.base", construct: "exported Basepoint", okDetail: "after package initialization Basepoint is a 32-byte slice holding 9 followed by 31 zero bytes"}
+		var at poser
+		if bpGlobal != nil {
+			at = bpGlobal
+		}
+		ob.at = at
+		for _, o := range c11Paths(ob, "package initialization", c11Explore(sp, nil, nil)) {
+			fp, ok := basepointIntact(o.run)
+			ob.expect(ok, at, "the exported Basepoint is not u = 9 (9 followed by 31 zero bytes): %s", fp)
+		}
+		c.c11Emit(ob)
+	}
+
+	// ---- X25519 -----------------------------------------------------------
+	if f := c.fn("curve25519", "X25519"); f != nil {
+		paths := &c11Ob{rule: "C11.checked", construct: "X25519 terminates normally", at: f, okDetail: "no path panics or leaves the model"}
+		routing := &c11Ob{rule: "C11.routing", construct: "X25519 -> crypto/ecdh", at: f, okDetail: "every ECDH is between priv(caller's scalar bytes) and pub(caller's point bytes) on the X25519 curve"}
+		checked := &c11Ob{rule: "C11.checked", construct: "X25519 error iff failure", at: f, okDetail: "a nil error is returned iff both inputs are 32 bytes long and ECDH succeeded"}
+		nilres := &c11Ob{rule: "C11.result", construct: "error returns carry no value", at: f, okDetail: "every error return has a nil slice"}
+		success := &c11Ob{rule: "C11.result", construct: "success value", at: f, okDetail: "the success value is a fresh 32-byte slice holding the ECDH output"}
+		intact := &c11Ob{rule: "C11.result", construct: "X25519 leaves its inputs and Basepoint unmodified", at: f, okDetail: "scalar, point and Basepoint hold their entry content at every exit"}
+		lens := []int{32, 0, 31, 33}
+		if len(f.Params) != 2 {
+			paths.violate(f, "X25519 does not take (scalar, point)")
+			lens = nil
+		}
+		for _, ls := range lens {
+			for _, lp := range lens {
+				scen := fmt.Sprintf("X25519(len(scalar)=%d, len(point)=%d)", ls, lp)
+				outs := c11Explore(sp, f, func(r *c11Run) []c11Val {
+					mk := func(role, name string, n int) c11Val {
+						o := r.input(role, name, n)
+						if n == 0 {
+							return nilV
+						}
+						return c11Val{k: c11Slice, obj: o, n: 0, m: int64(n)}
+					}
+					return []c11Val{mk("scalar", "S", ls), mk("point", "P", lp)}
+				})
+				sawECDH := false
+				for _, o := range c11Paths(paths, scen, outs) {
+					r := o.run
+					sc := scen + c11EcdhNote(o)
+					c11Routing(routing, sc, o, r.hfp["scalar"], r.hfp["point"])
+					nECDH := 0
+					for _, e := range r.events {
+						if e.kind == "ecdh" {
+							nECDH++
+						}
+					}
+					sawECDH = sawECDH || nECDH > 0
+					if len(o.results) != 2 {
+						checked.violate(f, "%s: X25519 does not return (value, error)", sc)
+						continue
+					}
+					val, err := o.results[0], o.results[1]
+					wantOK := ls == 32 && lp == 32 && !o.ecdhFailed()
+					why := "ECDH failed (all-zero shared secret)"
+					if ls != 32 || lp != 32 {
+						why = "an input is not 32 bytes long"
+					}
+					if wantOK {
+						checked.expect(err.isNil(), c11At(r.lastAt()), "%s: an error (%s) is returned although nothing failed", sc, err)
+					} else {
+						checked.expect(!err.isNil(), c11At(r.lastAt()), "%s: a nil error is returned although %s", sc, why)
+					}
+					if !err.isNil() {
+						nilres.expect(val.isNil(), f, "%s: an error is returned together with a non-nil slice", sc)
+					} else if wantOK {
+						want := "out(priv(" + r.hfp["scalar"] + "),pub(" + r.hfp["point"] + "))"
+						got := "nil"
+						if val.k == c11Slice {
+							got = c11Fp(val.bytes())
+						}
+						success.expect(val.k == c11Slice && got == want, f, "%s: the success value is %s, not the 32-byte ECDH output %s copied out", sc, got, want)
+						if val.k == c11Slice {
+							success.expect(val.obj != r.hobj["scalar"] && val.obj != r.hobj["point"], f, "%s: the result aliases an input slice", sc)
+						}
+					}
+					intact.expect(r.unchanged("scalar") && r.unchanged("point"), f, "%s: X25519 modifies its scalar or point argument", sc)
+					fp, ok := basepointIntact(r)
+					intact.expect(ok, f, "%s: Basepoint is %s at exit", sc, fp)
 				}
-				continue
-			}
-			switch cc.Method.Name() {
-			case "NewPublicKey":
-				pub = append(pub, ci)
-			case "NewPrivateKey":
-				priv = append(priv, ci)
-			}
-		}
-		one := func(name string, cs []ssa.CallInstruction, arg ssa.Value, argIdx int) {
-			if len(cs) != 1 {
-				c.fail("C11.checked", name, f, "call not found exactly once")
-				return
-			}
-			call := cs[0].(*ssa.Call)
-			y, _ := errSuccessEdges(call)
-			okArg := arg == nil || call.Call.Args[argIdx] == arg
-			c.mustCross("C11.checked", name, f, acc, y, name+" returned a nil error")
-			c.check(okArg, "C11.checked", name+" argument", call, "receives the right input", name+" is not applied to the right input")
-		}
-		one("NewPublicKey(point)", pub, point, 0)
-		one("NewPrivateKey(scalar)", priv, scalar, 0)
-		one("priv.ECDH(pub)", ecdh, nil, 0)
-		if len(ecdh) == 1 && len(pub) == 1 && len(priv) == 1 {
-			a := ecdh[0].Common().Args
-			okKeys := len(a) == 2
-			if okKeys {
-				ex0, ok0 := a[0].(*ssa.Extract)
-				ex1, ok1 := a[1].(*ssa.Extract)
-				okKeys = ok0 && ok1 && ex0.Tuple == callValue(priv[0]) && ex1.Tuple == callValue(pub[0])
-			}
-			c.check(okKeys, "C11.checked", "ECDH operands", ecdh[0], "the private key from the scalar is combined with the public key from the point", "ECDH is not computed between the scalar's private key and the point's public key")
-		}
-		// error returns carry nil; success returns dst[:] after copy(dst[:], out)
-		okNil, okRes := true, false
-		for _, r := range returnsOf(f) {
-			if errNilness(retVal(r, 1), r.Block(), 0) != definitelyNil {
-				if !isNilConst(retVal(r, 0)) {
-					okNil = false
+				if ls == 32 && lp == 32 {
+					routing.expect(sawECDH, f, "%s: no ECDH between the scalar's private key and the point's public key is computed", scen)
 				}
-				continue
 			}
-			if sl, ok := retVal(r, 0).(*ssa.Slice); ok && sl.X == ssa.Value(dst) {
-				for _, ci := range callsNamed(f, "builtin:copy") {
-					d, isS := ci.Common().Args[0].(*ssa.Slice)
-					src, isE := ci.Common().Args[1].(*ssa.Extract)
-					if isS && d.X == ssa.Value(dst) && isE && len(ecdh) == 1 && src.Tuple == callValue(ecdh[0]) && src.Index == 0 && (ci.Block() == r.Block() || ci.Block().Dominates(r.Block())) {
-						okRes = true
+		}
+		c.c11Emit(paths, routing, checked, nilres, success, intact)
+	}
+
+	// ---- ScalarMult -------------------------------------------------------
+	if g := c.fn("curve25519", "ScalarMult"); g != nil {
+		paths := &c11Ob{rule: "C11.zero-on-error", construct: "ScalarMult terminates normally", at: g, okDetail: "no path panics or leaves the model"}
+		routing := &c11Ob{rule: "C11.routing", construct: "ScalarMult -> crypto/ecdh", at: g, okDetail: "in every aliasing layout the keys are made from the scalar and point bytes the caller passed"}
+		zero := &c11Ob{rule: "C11.zero-on-error", construct: "ScalarMult failure edge", at: g, okDetail: "all 32 bytes of the caller's dst are zero at exit when ECDH failed"}
+		succ := &c11Ob{rule: "C11.result", construct: "ScalarMult success value", at: g, okDetail: "dst holds the ECDH output at exit when ECDH succeeded"}
+		intact := &c11Ob{rule: "C11.result", construct: "ScalarMult leaves non-aliased inputs and Basepoint unmodified", at: g, okDetail: "scalar/point not aliased with dst, and Basepoint, hold their entry content at every exit"}
+		// layouts: which of (dst, scalar, point) share storage
+		layouts := []struct {
+			name    string
+			d, s, p string
+		}{
+			{"distinct arguments", "D", "S", "P"},
+			{"dst aliasing scalar", "S", "S", "P"},
+			{"dst aliasing point", "P", "S", "P"},
+			{"scalar aliasing point", "D", "S", "S"},
+			{"dst, scalar and point all the same array", "S", "S", "S"},
+		}
+		if len(g.Params) != 3 {
+			paths.violate(g, "ScalarMult does not take (dst, scalar, point)")
+			layouts = nil
+		}
+		for _, lay := range layouts {
+			scen := "ScalarMult with " + lay.name
+			outs := c11Explore(sp, g, func(r *c11Run) []c11Val {
+				objs := map[string]*c11Obj{}
+				arg := func(role, name string) c11Val {
+					o := objs[name]
+					if o == nil {
+						o = r.input(role, name, 32)
+						objs[name] = o
+					} else {
+						r.alias(role, o)
+					}
+					return c11Val{k: c11Ptr, obj: o, n: 0, m: 32}
+				}
+				return []c11Val{arg("dst", lay.d), arg("scalar", lay.s), arg("point", lay.p)}
+			})
+			sawFail, sawOK := false, false
+			for _, o := range c11Paths(paths, scen, outs) {
+				r := o.run
+				sc := scen + c11EcdhNote(o)
+				wantS, wantP := r.hfp["scalar"], r.hfp["point"]
+				c11Routing(routing, sc, o, wantS, wantP)
+				got := c11Fp(r.hobj["dst"].cells)
+				if o.ecdhFailed() {
+					sawFail = true
+					zero.expect(got == "zero", g, "%s: on failure ScalarMult does not zero the caller's dst (dst holds %s at exit; the result slice of a failed x25519 is nil)", sc, got)
+				} else {
+					want := "out(priv(" + wantS + "),pub(" + wantP + "))"
+					if got == want {
+						sawOK = true
+					}
+					succ.expect(got == want, g, "%s: dst holds %s at exit, not the ECDH output %s", sc, got, want)
+				}
+				for _, role := range []string{"scalar", "point"} {
+					if r.hobj[role] != r.hobj["dst"] {
+						intact.expect(r.unchanged(role), g, "%s: ScalarMult modifies its %s argument", sc, role)
 					}
 				}
+				fp, ok := basepointIntact(r)
+				intact.expect(ok, g, "%s: Basepoint is %s at exit", sc, fp)
+			}
+			zero.expect(sawFail || paths.und != "", g, "%s: no path on which ECDH fails was found (the failure of the shared-secret computation is not observed)", scen)
+			succ.expect(sawOK || paths.und != "", g, "%s: no path delivers the ECDH output in dst", scen)
+		}
+		c.c11Emit(paths, routing, zero, succ, intact)
+	}
+
+	// ---- ScalarBaseMult ---------------------------------------------------
+	if g := c.fn("curve25519", "ScalarBaseMult"); g != nil {
+		paths := &c11Ob{rule: "C11.base", construct: "ScalarBaseMult terminates normally", at: g, okDetail: "no path panics or leaves the model"}
+		base := &c11Ob{rule: "C11.base", construct: "ScalarBaseMult", at: g, okDetail: "dst = public key bytes of the private key built from the caller's scalar (or its ECDH with the base point)"}
+		layouts := []struct{ name, d, s string }{{"distinct arguments", "D", "S"}, {"dst aliasing scalar", "S", "S"}}
+		if len(g.Params) != 2 {
+			paths.violate(g, "ScalarBaseMult does not take (dst, scalar)")
+			layouts = nil
+		}
+		for _, lay := range layouts {
+			scen := "ScalarBaseMult with " + lay.name
+			outs := c11Explore(sp, g, func(r *c11Run) []c11Val {
+				objs := map[string]*c11Obj{}
+				arg := func(role, name string) c11Val {
+					o := objs[name]
+					if o == nil {
+						o = r.input(role, name, 32)
+						objs[name] = o
+					} else {
+						r.alias(role, o)
+					}
+					return c11Val{k: c11Ptr, obj: o, n: 0, m: 32}
+				}
+				return []c11Val{arg("dst", lay.d), arg("scalar", lay.s)}
+			})
+			for _, o := range c11Paths(paths, scen, outs) {
+				r := o.run
+				wantS := r.hfp["scalar"]
+				got := c11Fp(r.hobj["dst"].cells)
+				ok := got == "pubof(priv("+wantS+"))" || got == "out(priv("+wantS+"),pub(base))"
+				base.expect(ok, g, "%s: ScalarBaseMult does not write the public key of the given scalar into dst (dst holds %s at exit)", scen, got)
+				if r.hobj["scalar"] != r.hobj["dst"] {
+					base.expect(r.unchanged("scalar"), g, "%s: ScalarBaseMult modifies its scalar argument", scen)
+				}
+				fp, okb := basepointIntact(r)
+				base.expect(okb, g, "%s: Basepoint is %s at exit", scen, fp)
 			}
 		}
-		c.check(okNil, "C11.result", "error returns carry no value", f, "every error return has a nil slice", "an error is returned together with a non-nil slice")
-		c.check(okRes, "C11.result", "success value", f, "dst[:] after copy(dst[:], ECDH result)", "the success value is not the ECDH output copied into dst")
+		c.c11Emit(paths, base)
 	}
-	// routing
-	route := func(fn string, want func(g *ssa.Function, a []ssa.Value) bool) *ssa.Call {
-		g := c.fn("curve25519", fn)
-		if g == nil {
-			return nil
-		}
-		cs := callsNamed(g, "curve25519.x25519")
-		ok := len(cs) == 1 && want(g, cs[0].Common().Args)
-		c.check(ok, "C11.routing", fn+" -> x25519", g, "arguments (dst, scalar, point) in order", fn+" does not call x25519 with (dst, scalar, point) in that order")
-		if len(cs) == 1 {
-			return cs[0].(*ssa.Call)
-		}
+}
+
+// lastAt is the position of the last crypto/ecdh call of the run (for messages).
+func (r *c11Run) lastAt() ssa.Instruction {
+	if len(r.events) == 0 {
 		return nil
 	}
-	route("X25519", func(g *ssa.Function, a []ssa.Value) bool {
-		_, isAlloc := a[0].(*ssa.Alloc)
-		return isAlloc && a[1] == ssa.Value(g.Params[0]) && a[2] == ssa.Value(g.Params[1])
-	})
-	smCall := route("ScalarMult", func(g *ssa.Function, a []ssa.Value) bool {
-		s1, ok1 := a[1].(*ssa.Slice)
-		s2, ok2 := a[2].(*ssa.Slice)
-		return a[0] == ssa.Value(g.Params[0]) && ok1 && ok2 && s1.X == ssa.Value(g.Params[1]) && s2.X == ssa.Value(g.Params[2])
-	})
-	if g := c.fn("curve25519", "ScalarMult"); g != nil && smCall != nil {
-		_, fail := errSuccessEdges(smCall)
-		var starts []*ssa.BasicBlock
-		for _, e := range fail {
-			starts = append(starts, e.to())
-		}
-		region := reach(starts, nil)
-		okZero := false
-		dst := g.Params[0]
-		allInstrs(g, func(in ssa.Instruction) {
-			if !region[in.Block()] {
-				return
-			}
-			switch x := in.(type) {
-			case *ssa.Store:
-				if k, isK := constInt(x.Val); isK && k == 0 {
-					if ia, ok := x.Addr.(*ssa.IndexAddr); ok && ia.X == ssa.Value(dst) {
-						// index is a range variable over the whole array
-						if _, isConst := constInt(ia.Index); !isConst && innermostLoopHeader(x.Block()) != nil {
-							okZero = true
-						}
-					}
-				}
-			case *ssa.Call:
-				if calleeName(&x.Call) == "builtin:clear" {
-					if sl, ok := x.Call.Args[0].(*ssa.Slice); ok && sl.X == ssa.Value(dst) && sl.Low == nil && sl.High == nil {
-						okZero = true
-					}
-				}
-			}
-		})
-		c.check(len(fail) > 0 && okZero, "C11.zero-on-error", "ScalarMult failure edge", g, "all 32 bytes of the dst parameter are set to zero when x25519 fails", "on failure ScalarMult does not zero the caller's dst (the result slice of a failed x25519 is nil)")
-		// the loop covers the whole array: range over dst => bound is the array length 32
-		if okZero {
-			okBound := false
-			allInstrs(g, func(in ssa.Instruction) {
-				if bo, ok := in.(*ssa.BinOp); ok && region[bo.Block()] {
-					if k, isK := constInt(bo.Y); isK && k == 32 {
-						okBound = true
-					}
-				}
-				if cl, ok := in.(*ssa.Call); ok && calleeName(&cl.Call) == "builtin:clear" && region[cl.Block()] {
-					okBound = true
-				}
-			})
-			c.check(okBound, "C11.zero-on-error", "zeroing covers 32 bytes", g, "loop bound 32 (range over the array) or clear of the whole array", "the zeroing loop does not cover all 32 bytes")
-		}
-	}
-	if g := c.fn("curve25519", "ScalarBaseMult"); g != nil {
-		ok := false
-		for _, ci := range callsNamed(g, "builtin:copy") {
-			d, isS := ci.Common().Args[0].(*ssa.Slice)
-			if !isS || d.X != ssa.Value(g.Params[0]) {
-				continue
-			}
-			// source: Bytes() of PublicKey() of NewPrivateKey(scalar[:])
-			b, ok1 := ci.Common().Args[1].(*ssa.Call)
-			if !ok1 || !strings.HasSuffix(short(calleeName(&b.Call)), "ecdh.PublicKey).Bytes") {
-				continue
-			}
-			pk, ok2 := b.Call.Args[0].(*ssa.Call)
-			if !ok2 || !strings.HasSuffix(short(calleeName(&pk.Call)), "ecdh.PrivateKey).PublicKey") {
-				continue
-			}
-			ex, ok3 := pk.Call.Args[0].(*ssa.Extract)
-			if !ok3 {
-				continue
-			}
-			np, ok4 := ex.Tuple.(*ssa.Call)
-			if !ok4 || !np.Call.IsInvoke() || np.Call.Method.Name() != "NewPrivateKey" {
-				continue
-			}
-			if sl, isSl := np.Call.Args[0].(*ssa.Slice); isSl && sl.X == ssa.Value(g.Params[1]) {
-				ok = true
-			}
-		}
-		c.check(ok, "C11.base", "ScalarBaseMult", g, "dst = public key bytes of the private key built from the scalar", "ScalarBaseMult does not write the public key of the given scalar into dst")
-	}
-	// base point constant
-	okBP := false
-	if p := c.pkg("curve25519"); p != nil {
-		for _, file := range p.Syntax {
-			ast.Inspect(file, func(n ast.Node) bool {
-				vs, ok := n.(*ast.ValueSpec)
-				if !ok || len(vs.Names) != 1 || vs.Names[0].Name != "basePoint" || len(vs.Values) != 1 {
-					return true
-				}
-				cl, ok := vs.Values[0].(*ast.CompositeLit)
-				if !ok || len(cl.Elts) != 1 {
-					return true
-				}
-				if tv, ok := p.TypesInfo.Types[cl.Elts[0]]; ok && tv.Value != nil {
-					if k, isK := constant.Int64Val(constant.ToInt(tv.Value)); isK && k == 9 {
-						if tv2, ok := p.TypesInfo.Types[cl]; ok && tv2.Type.String() == "[32]byte" {
-							okBP = true
-						}
-					}
-				}
-				return true
-			})
-		}
-	}
-	c.check(okBP, "C11.base", "base point", nil, "basePoint = [32]byte{9}", "the base point is not u = 9")
-	{
-		ok := false
-		var ini *ssa.Function
-		var all []*ssa.Function
-		if sp := c.ssaPkg("curve25519"); sp != nil {
-			all = append(all, sp.Func("init"))
-			for i := 1; i < 5; i++ {
-				for _, fn := range c.funcsOfPkg("curve25519") {
-					all = append(all, fn)
-				}
-				break
-			}
-			// declared init functions are anonymous members reachable from the package initializer
-			if pi := sp.Func("init"); pi != nil {
-				allInstrs(pi, func(in ssa.Instruction) {
-					if cc := callCommon(in); cc != nil {
-						if cal := cc.StaticCallee(); cal != nil && cal.Pkg == sp {
-							all = append(all, cal)
-						}
-					}
-				})
-			}
-		}
-		for _, fn := range all {
-			if fn == nil {
-				continue
-			}
-			ini = fn
-			allInstrs(fn, func(in ssa.Instruction) {
-				if st, isS := in.(*ssa.Store); isS {
-					if gl, isG := st.Addr.(*ssa.Global); isG && gl.Name() == "Basepoint" {
-						if sl, isSl := st.Val.(*ssa.Slice); isSl {
-							if g2, isG2 := sl.X.(*ssa.Global); isG2 && g2.Name() == "basePoint" {
-								ok = true
-							}
-						}
-					}
-				}
-			})
-		}
-		c.check(ok, "C11.base", "exported Basepoint", ini, "Basepoint = basePoint[:]", "the exported Basepoint is not the base point array")
-	}
+	return r.events[len(r.events)-1].at
 }
